@@ -328,7 +328,7 @@ impl State {
     ) -> Result<Inner, std::io::Error> {
         let (naming_state, infix) = match rotate_config.naming {
             Naming::TimestampsDirect => {
-                let ts =
+                let (ts, infix) =
                     latest_timestamp_file(&self.config, !self.config.append, &InfixFormat::Std);
                 (
                     NamingState::Timestamps {
@@ -336,7 +336,7 @@ impl State {
                         the_current_infix: None,
                         infix_format: InfixFormat::Std,
                     },
-                    infix_from_timestamp(&ts, self.config.use_utc, &InfixFormat::Std),
+                    infix,
                 )
             }
             Naming::Timestamps => (
@@ -373,8 +373,8 @@ impl State {
                     (naming_state, current_infix)
                 } else {
                     let fmt = InfixFormat::custom(ts_fmt);
-                    let ts = latest_timestamp_file(&self.config, !self.config.append, &fmt);
-                    let infix = infix_from_timestamp(&ts, self.config.use_utc, &fmt);
+                    let (ts, infix) =
+                        latest_timestamp_file(&self.config, !self.config.append, &fmt);
                     (
                         NamingState::Timestamps {
                             current_timestamp: ts,
